@@ -3,20 +3,25 @@
 
   Property theorems only (helper lemmas: Lemmas/Layout.lean, Lemmas/NumberedLines.lean, Lemmas/NumberedScale.lean, Lemmas/PreExpand.lean).
 
-  What is proved here, for ALL piece lists / line lists / configurations (no bound):
-    * Colang 2.x: the token stream that the lexer's layout rules + `lark.indenter.Indenter` hand to the LALR
+  What is proved here, for ALL piece lists / texts / line lists / configurations (no bound):
+    * Colang 2.x, pieces: the token stream that the lexer's layout rules + `lark.indenter.Indenter` hand to the LALR
       parser is unchanged by inserting blank lines, by trailing ignored blanks, by end-of-line comments, and
       (after erasing the text of `_`-terminals, which Lark drops from the tree) by scaling all indentation by k ≥ 1;
-    * Colang 1.0: `get_numbered_lines` yields the same texts/comments and proportionally scaled indentation
-      under the same edits (see the second half of this file);
+    * Colang 2.x, source text: the same four statements for CHARACTER text through the scanner `TextLayout.seg` (layout
+      terminals concrete, body terminals an oracle), and for the RAW FILE CONTENT through the `...` pre-parsing expansion
+      (`text_layout_*`, `source_*`), under explicit hypotheses about the oracle;
+    * Colang 1.0: `get_numbered_lines` yields the same records (text, indentation, comment) under blank lines and trailing
+      whitespace, and proportionally scaled indentation under scaling when multi-line-string openers are tight
+      (`numbered_lines_scale_partial`; the unrestricted statement is false of the code, counterexample below);
     * the error wrapper of `_parse_colang_files_recursively` with the repaired formatter always raises
-      `ColangParsingError` naming the file; with the pinned formatter it does so exactly on `PositionOk`.
+      `ColangParsingError` naming the file — instantiated at every raise site found by the static scan
+      (`errwrap_total_raise_sites`); with the pinned formatter it does so exactly on `PositionOk`.
 
   What is NOT proved (handled by search/correspondence only, see design_notes/C13.md):
     * equal token streams ⇒ equal flows: rests on Lark's LALR engine + `ColangTransformer` being a function of
       the token stream (types, and texts of non-`_` terminals);
-    * edits *inside* a token (`_AND`/`_OR` absorb the preceding line break; multi-line strings) are outside
-      these statements;
+    * the tokenizer oracle itself (regexes of the body terminals, contextual lexer); edits *inside* a token (`_AND`/`_OR`
+      absorb the preceding line break; multi-line strings) are outside these statements;
     * the 1 900-line Colang 1.0 parser only *comparing* indentation levels of `get_numbered_lines`' output;
     * "never a hang".
 
@@ -273,6 +278,16 @@ open NemoVerif.NumberedLines in
 /-- non-vacuity: after `define flow a` / `  user hi` the parser is at a boundary. -/
 example : ∃ st' out, runPre NumberedLines.St.init [['d', 'e', 'f', ' ', 'a'], [' ', ' ', 'u', ' ', 'h']] = .ok (st', out) ∧ st'.atBoundary = true := by
   refine ⟨_, _, rfl, ?_⟩
+  decide
+
+open NemoVerif.NumberedLines in
+/-- kernel-checked witnesses (finite facts) that the hypothesis `atBoundary` of `numbered_lines_blank` is needed: a blank line between a line
+    ending in ` or` and its continuation, or inside a multi-line string, changes the records. -/
+theorem numbered_lines_blank_boundary_witness :
+    (numbered [['a', ' ', 'o', 'r'], ['b']]).toOption.map (List.map Rec.text) = some [['a', ' ', 'o', 'r', ' ', 'b']] ∧
+    (numbered [['a', ' ', 'o', 'r'], [], ['b']]).toOption.map (List.map Rec.text) = some [['a', ' ', 'o', 'r', ' '], ['b']] ∧
+    (numbered [['"', 'a'], ['b', '"']]).toOption.map (List.map Rec.text) = some [['"', 'a', '\n', 'b', '"']] ∧
+    (numbered [['"', 'a'], [], ['b', '"']]).toOption.map (List.map Rec.text) = some [['"', 'a', '\n', '\n', 'b', '"']] := by
   decide
 
 open NemoVerif.NumberedLines in
